@@ -455,6 +455,18 @@ class SimLifoQueue(SimPriorityQueue):
 _PATCHES = []
 
 
+class _Shim:
+    """A module stand-in: overridden names first, everything else from the real module (so that
+    code using e.g. threading.main_thread() or time.strftime keeps working)."""
+
+    def __init__(self, real, **over):
+        self.__dict__["_real"] = real
+        self.__dict__.update(over)
+
+    def __getattr__(self, name):
+        return getattr(self.__dict__["_real"], name)
+
+
 def install(sim):
     """Replace the thread/clock/queue names of the pydcop runtime modules."""
     import pydcop.infrastructure.agents as agents
@@ -464,11 +476,10 @@ def install(sim):
     import pydcop.infrastructure.run as run
     for cls in (SimThread, SimEvent, SimTimer, SimPriorityQueue, SimQueue, SimLifoQueue):
         cls._sim = sim
-    th_shim = types.SimpleNamespace(
-        Event=SimEvent, Timer=SimTimer, Thread=SimThread, Lock=_th.Lock, RLock=_th.RLock,
-        current_thread=_th.current_thread, get_ident=_th.get_ident)
-    time_shim = types.SimpleNamespace(perf_counter=sim.perf_counter, sleep=sim.sleep,
-                                      time=sim.perf_counter, monotonic=sim.perf_counter)
+    th_shim = _Shim(_th, Event=SimEvent, Timer=SimTimer, Thread=SimThread)
+    import time as _time
+    time_shim = _Shim(_time, perf_counter=sim.perf_counter, sleep=sim.sleep,
+                      time=sim.perf_counter, monotonic=sim.perf_counter)
 
     def patch(mod, name, val):
         if hasattr(mod, name):
